@@ -22,8 +22,110 @@ fn small_go(rng: &mut Rng, dense: bool) -> Limits {
     l
 }
 
+// ---------------------------------------------------------------- the sweep
+// For a catalogue of fixed scripts, EVERY single preemption: each yield point of each
+// thread (flag loads thinned out) x each other thread x three hold lengths. The first
+// SWEEP_QUICK scripts are swept by the quick tier, all of them by the thorough tier.
+
+pub const SWEEP_SPAN: u64 = 2048;
+pub const SWEEP_QUICK: u64 = 9;
+const SWEEP_POSITIONS: [&str; 3] = [
+    "position startpos",
+    "position fen r1bqkb1r/pppp1ppp/2n2n2/4p2Q/2B1P3/8/PPPP1PPP/RNB1K1NR b KQkq - 4 4",
+    "position fen 8/2p5/3p4/KP5r/1R3p1k/8/4P1P1/8 w - - 0 1",
+];
+
+fn catalogue(i: u64) -> Option<Vec<Action>> {
+    let pos = SWEEP_POSITIONS[(i % 3) as usize];
+    let other = SWEEP_POSITIONS[((i + 1) % 3) as usize];
+    let a = |s: &str| Action::send(s);
+    let mut v = vec![a(pos)];
+    match i / 3 {
+        0 => v.extend([a("go infinite"), Action::DelaySteps(0), a("stop"), Action::WaitBestmove]),
+        1 => v.extend([a("go infinite"), Action::DelaySteps(5), a("stop"), Action::WaitBestmove]),
+        2 => v.extend([a("go depth 2"), Action::WaitBestmove, a("go depth 1"), Action::WaitBestmove]),
+        3 => v.extend([a("go infinite"), Action::DelaySteps(200), a("stop"), Action::WaitBestmove, a("go depth 1"), Action::WaitBestmove]),
+        4 => v.extend([a("go nodes 50"), Action::DelaySteps(10), a("stop"), Action::WaitBestmove, a("isready")]),
+        5 => v.extend([a("go infinite"), a("isready"), a(other), Action::DelaySteps(30), a("stop"), Action::WaitBestmove, a("go depth 1"), Action::WaitBestmove]),
+        6 => v.extend([a("stop"), a("go depth 1"), Action::WaitBestmove, a("stop")]),
+        7 => v.extend([a("go movetime 1"), Action::WaitBestmove, a("go movetime 0"), Action::WaitBestmove]),
+        8 => v.extend([a("go"), Action::DelaySteps(3), a("stop"), a("stop"), Action::WaitBestmove, a(other), a("go nodes 20"), Action::WaitBestmove]),
+        _ => return None,
+    }
+    v.push(a("isready"));
+    v.push(a("quit"));
+    Some(v)
+}
+
+pub fn sweep_scripts(thorough: bool) -> u64 {
+    if thorough {
+        27
+    } else {
+        SWEEP_QUICK
+    }
+}
+
+fn sweep_case(index: u64, seed: u64) -> Vec<Plan> {
+    use super::super::kernel::{Preempt, KERNEL, L, NL};
+    let (si, k) = (index / SWEEP_SPAN, index % SWEEP_SPAN);
+    let Some(script) = catalogue(si) else { return vec![] };
+    let mut plan = Plan::new("C10", seed);
+    plan.script = script;
+    plan.cost_ns = 1000;
+    plan.step_cap = 400_000;
+    plan.tick_cap = 2_000_000;
+    plan.policy = None; // explicit from the start
+    // the undisturbed run tells us which yield points exist
+    let quiet = KERNEL.run(&plan, false);
+    let nthreads = quiet.threads.len();
+    let mut points: Vec<Preempt> = vec![];
+    for tid in 0..nthreads {
+        for li in 0..NL {
+            let Some(label) = L::from_u8(li as u8) else { continue };
+            if label == L::End {
+                continue;
+            }
+            let count = quiet.label_counts[tid][li];
+            let mut nth = 1;
+            while nth <= count {
+                for to in 0..nthreads {
+                    if to == tid {
+                        continue;
+                    }
+                    for hold in [0u32, 5, 20_000] {
+                        points.push(Preempt {
+                            tid: tid as u8,
+                            label,
+                            nth: nth as u32,
+                            to: to as u8,
+                            hold,
+                        });
+                    }
+                }
+                nth += if label == L::FlagLoad && nth >= 24 { 37 } else { 1 };
+            }
+        }
+    }
+    plan.params = super::super::json::J::obj()
+        .set("sweep_script", si)
+        .set("sweep_points", points.len());
+    if k == 0 {
+        return vec![plan]; // the undisturbed schedule itself
+    }
+    match points.get((k - 1) as usize) {
+        Some(p) => {
+            plan.preempts = vec![*p];
+            vec![plan]
+        }
+        None => vec![],
+    }
+}
+
 pub fn generate(cx: &super::GenCtx) -> Vec<Plan> {
     let seed = cx.seed;
+    if cx.index < sweep_scripts(cx.thorough) * SWEEP_SPAN {
+        return sweep_case(cx.index, seed);
+    }
     let mut rng = Rng::new(seed);
     let mut plan = Plan::new("C10", seed);
     let mut spec = gen::random_posspec(&mut rng);
@@ -104,6 +206,17 @@ pub fn check(plans: &[Plan], recs: &[RunRec]) -> Outcome {
     common_stats(plan, rec, &mut out.stats);
     let h = history(rec);
     let views = go_views(&h);
+    if plan.params.get("sweep_script").is_some() {
+        out.stats.inc("sweep.cases");
+        if plan.preempts.is_empty() {
+            out.stats.inc("sweep.undisturbed_runs");
+        } else if rec.preempts_applied > 0 {
+            out.stats.inc("sweep.single_preemption_applied");
+        } else {
+            out.stats.inc("sweep.preemption_target_not_runnable");
+        }
+        out.stats.max("sweep.points_in_largest_script", plan.params.u("sweep_points"));
+    }
 
     for (tid, msg) in &h.panics {
         if *tid == 0 {
